@@ -217,6 +217,7 @@ def check(run):
     KINDS = {
         A + '::incoming_packet': {'method:push_back'},
         A + '::check_accept_queue': {'method:front', 'method:pop_front', 'method:begin', 'method:clear', 'method:empty', 'read', 'move', 'method:end'},
+        A + '::close': {'method:clear'},        # closing drains the queue (accept_queue_drained_rule)
     }
     seen_kinds = {}
     for fn in fx.repo_functions():
